@@ -59,6 +59,15 @@ def judge_tax(ctx, g, impl, model):
                             ctx.fail('incompatible-pos-raises-wn.Error', g, dict(where, metric=f, got=e[f]))
                     continue
                 sp = e['sp']
+                # the true distance in the graph: over a common ancestor, or over the simulated root
+                cand_ = [dist[a][z] + dist[b][z] for z in (set(dist[a]) & set(dist[b]))]
+                if root:
+                    cand_.append(min([len(p) for p in chains[a]] or [0]) + 1 + min([len(p) for p in chains[b]] or [0]) + 1)
+                true_d = min(cand_) if cand_ else None
+                if e['path'] != 'error':
+                    exp_true = 0.0 if true_d is None else 1 / (true_d + 1)
+                    if e['path'] != exp_true:
+                        ctx.fail('path=1/(distance-in-the-hypernym-graph+1),0-when-unconnected', g, dict(where, got=e['path'], expected=exp_true))
                 # path
                 if e['path'] == 'error':
                     ctx.fail('path-never-errors-for-compatible-pos', g, where)
